@@ -75,7 +75,7 @@ extern uint8_t g_vval;                              /* value of data byte g_vk b
                       __CPROVER_requires(mask->cap <= VSTR_MAXCAP && mask->size <= mask->cap && mask->cap - mask->size >= 8) \
                       __CPROVER_requires(__CPROVER_is_fresh(mask->data, mask->cap))
 #define STEP_MASK_ENS __CPROVER_ensures(mask->size == O(mask->size) + NOUT) \
-                      __CPROVER_ensures(g_j < NOUT ==> (uint8_t)mask->data[O(mask->size) + g_j] == PDS_MASK_BYTE(O(mask_enabled)))
+                      __CPROVER_ensures((g_vk >= O(mask->size) && g_vk < mask->size) ==> (uint8_t)mask->data[g_vk] == PDS_MASK_BYTE(O(mask_enabled)))
 #define STEP_MASK_ASSIGNS , mask->size, __CPROVER_object_from(mask->data + mask->size)
 #endif
 
@@ -120,7 +120,7 @@ __CPROVER_ensures(g_returned || __CPROVER_POINTER_OFFSET(in) > __CPROVER_POINTER
 /* ---- output ---------------------------------------------------------------------------------------------------------- */
 __CPROVER_ensures(data->size == O(data->size) + NOUT)
 __CPROVER_ensures(NOUT <= 4 * (__CPROVER_POINTER_OFFSET(in) - __CPROVER_POINTER_OFFSET(O(in))))
-__CPROVER_ensures(g_j < NOUT ==> (uint8_t)data->data[O(data->size) + g_j] == OUTBYTE(g_j))
+__CPROVER_ensures((g_vk >= O(data->size) && g_vk < data->size) ==> (uint8_t)data->data[g_vk] == OUTBYTE(g_vk - O(data->size)))
 __CPROVER_ensures(g_vk < O(data->size) ==> (uint8_t)data->data[g_vk] == g_vval)
 STEP_MASK_ENS
 __CPROVER_assigns(in, chr, reading_string, reading_unicode_string, reading_comment, reading_multiline_comment, reading_high_nybble,
